@@ -10,8 +10,8 @@ ID = "C19"
 LEVEL = "exploration"
 TECHNIQUE = "runtime monitoring of a regtest node with on-disk block files under generated histories (ASan+UBSan); offline trace oracle over recorded prune events"
 RULE = ("One case = one history: regtest node, fast_prune (64 KiB block files), prune mode manual or automatic (target 550-800 MiB), 330-520 blocks "
-        "of random size (0.3-126 KB, each with a spend so undo data is real) then ~120 actions: more blocks, reorgs of depth 1-12, prune locks "
-        "set / advanced / deleted at random heights (incl. 0-12, around tip-288, in sync, 'no best block'), manual prunes at random heights "
+        "of random size (0.3-126 KB, each with a spend so undo data is real) then ~120 actions: more blocks, reorgs of depth 1-12, "
+        "blocks delivered headers-first and then in reverse / shuffled order (windows of 2-8, sometimes 12-18 blocks) and late stale blocks, each closed by a file roll-over so that the file's last-written block is lower than its highest one, with prunes aimed at the moment tip-288 (or a lock) lies inside such a file; prune locks set / advanced / deleted at random heights (incl. 0-12, around tip-288, in sync, 'no best block'), manual prunes at random heights "
         "(below, around and inside the 288 window, above the tip, just below a lock), explicit automatic prunes after inflating the accounted size "
         "of finalised files, natural prunes inside ProcessNewBlock. Every fifth history loads the genuine assumeutxo snapshot (base 110) first and "
         "delivers background blocks in and out of order while the snapshot chain is grown and pruned. A non-trivial case is a prune event that "
@@ -22,10 +22,11 @@ ASSUMPTIONS = [
     "prune locks are those the harness set through UpdatePruneLock (re-asserted after each reorg the way an index rewinds); the node's private lock table is not readable, so DisconnectTip moving locks back is exercised but not observed",
     "for prunes inside ProcessNewBlock the tip at the moment of the prune is not observable: the larger of the tips before/after is used (never over-demands, can under-demand by the blocks connected in that call)",
     "the 288-block window and the lock rule are applied to every block stored in a deleted file by height (also blocks of stale branches), as the design prescribes",
+    "the highest-numbered block file (write cursor) is never counted as eligible for the post-condition, as FindFilesToPrune skips it",
     "the post-condition is evaluated for explicit PruneAndFlush calls only (no writes happen inside those); a remaining file counts as eligible only if it is eligible under the code's own stricter range too",
     "survivors are read back in the files next to a deleted file plus a 1/40 sample after each prune, and completely at the end of each history",
 ]
-REQUIRED = ["auto_prunes", "manual_prunes", "natural_prunes", "lock_limited", "window_limited", "postcond_checked", "reorgs", "snapshot_prunes", "read_back"]
+REQUIRED = ["files_with_out_of_order_heights", "prune_boundary_inside_out_of_order_file", "ooo_windows", "late_stale_blocks", "auto_prunes", "manual_prunes", "natural_prunes", "lock_limited", "window_limited", "postcond_checked", "reorgs", "snapshot_prunes", "read_back"]
 LEVEL_TEXT = "no recorded prune event deleted a block inside the 288 window, at/above a prune lock or not yet background-validated; automatic prunes met their post-condition"
 LEVEL_NOTE = "holds for the generated histories only; accounting pressure is simulated"
 
@@ -73,6 +74,8 @@ def check(rec, st):
     # ---- safety: what was deleted ------------------------------------------------------------------------------------
     for d in deleted:
         heights = [b[0] for b in d["blocks"]]
+        if d.get("lw", d["maxh"]) < d["maxh"]:
+            st.seen("out_of_order_files_deleted")
         st.seen("blocks_deleted", len(heights))
         ddet = dict(det, file=d["f"], minh=d["minh"], maxh=d["maxh"], fileinfo=[d["fi_first"], d["fi_last"]], nblocks=len(heights))
         bad = [h for h in heights if h > tip - KEEP]
@@ -115,10 +118,17 @@ def check(rec, st):
     want = tip if typ == "auto" else min(rec["arg"], tip)
     win_bound = lock_bound = snap_bound = False
     eligible_left = []
-    for f, mn, mx, fif, fil, size, undo in rec["remaining"]:
+    boundary = min(tip - KEEP, code_last, want)
+    for f, mn, mx, fif, fil, size, undo, lw in rec["remaining"]:
         if size == 0:
             continue
         lo, hi = min(mn, fif), max(mx, fil)
+        if lw < mx:
+            st.seen("files_with_out_of_order_heights")
+            if lw <= boundary < mx and lo >= prune_start:
+                # the file's last-written block is prunable, a higher block in it is not: it has to survive (it did: it is in `remaining`)
+                st.seen("prune_boundary_inside_out_of_order_file")
+                st.nontrivial("ooo-boundary", typ, tip, f, lw, mx)
         in_window = hi <= tip - KEEP
         below_locks = lock_floor is None or hi < lock_floor
         below_locks_code = hi <= code_last
@@ -130,7 +140,9 @@ def check(rec, st):
             lock_bound = True
         if wanted and in_window and below_locks_code and not after_base:
             snap_bound = True
-        if in_window and below_locks and below_locks_code and after_base:
+        # the code never considers the highest-numbered block file (the one a chainstate is appending to): its loops run
+        # over fileNumber < MaxBlockfileNum(); such a file is not "eligible" here either
+        if in_window and below_locks and below_locks_code and after_base and f < rec["maxfile"]:
             eligible_left.append([f, lo, hi, size + undo])
     if typ == "manual" and rec["arg"] > tip - KEEP and win_bound:
         st.seen("window_limited")
